@@ -67,7 +67,7 @@ EXTRA_NOTE = {
     "C10": "Type-predicate matrix and the documented identities have no data dimension and are labelled native enumerations; the chain/combinator semantics use symbolic truth tables.",
     "C11": "Histories (<=2 calls over a 43-type pool) are enumerated natively; the datum is symbolic. Thread schedules are C12 (not applicable).",
     "C13": "Besides the hand-written programs, a generated family of 317 flat + 31 nested + 378 cross-kind converter programs (recipe tokens in every order, decoys, extra parameters, refused programs) is compared with a reference of the linking rules; programs are enumerated natively, values are symbolic.",
-    "C14": "The acceptance relation over the 35-type pool is a labelled native enumeration; soundness of every accepted pair is decided on symbolic conforming values.",
+    "C14": "The acceptance relation over the 40-type pool is a labelled native enumeration; soundness of every accepted pair is decided on symbolic conforming values.",
     "C15": "Structural congruence (39 groups of spellings, 8-value literal pool) and predicate equivalence of spellings are labelled native enumerations: normalize_type cannot run under CrossHair (proxy intolerance). Behavioural equivalence of loaders is symbolic.",
     "C16": "36 hierarchy cases (dataclass, attrs, NamedTuple, TypedDict, pydantic; PEP 604 unions) + 6 PEP 695 alias cases; pydantic cases take selector-built concrete payloads. Not claimed: a pydantic child re-using its parent's own TypeVar (documented pydantic limitation).",
     "C17": "pydantic / SQLAlchemy receive realised pooled data (compiled validators reject symbolic proxies); pure kinds are symbolic over the kind pattern.",
